@@ -68,12 +68,29 @@ def run(ctx):
         for tr in traces:
             c = tr["consts"]
             for e in tr["events"]:
-                if e["ev"] == "Set":
+                if e["ev"] not in ("Query", "QueryBoth"):
                     continue
                 for res in ([e["res"]] if e["ev"] == "Query" else [e["resA"], e["resB"]]):
                     nontrivial = (e["forUpload"] and c["keys"]) or any(s in c["preferred"] for s in res)
                     ctx.count(json.dumps([c["servers"], c["keys"], c["preferred"], c["certs"], e["psi"], e["forUpload"], e["now"], res], sort_keys=True)
                               if nontrivial else None)
-        ctx.sample({"cfgmode": mode, "consts": traces[0]["consts"], "events": [e for e in traces[0]["events"] if e["ev"] != "Set"][:3]}, limit=2)
+        ctx.sample({"cfgmode": mode, "consts": traces[0]["consts"], "events": [e for e in traces[0]["events"] if e["ev"] in ("Query", "QueryBoth", "Permits")][:3]}, limit=2)
         alltraces += traces
-    ctx.trace("net/TraceServerOrder", alltraces, key_of=key_of, what_of=what_of, batch=800)
+    # clauses of the sibling property C33 (Permits events) only cut a trace short here; C33's own check reports them
+    captured = []
+    ctx.report = lambda key, what, replay=None: captured.append((key, what, replay))
+    try:
+        ctx.trace("net/TraceServerOrder", alltraces, key_of=key_of, what_of=what_of, batch=800)
+    finally:
+        del ctx.report
+    other = set()
+    for key, wh, replay in captured:
+        if ":C33_" in key:
+            other.add(key)
+        else:
+            ctx.report(key, wh, replay)
+    if other:
+        ctx.notes.append("traces cut short by clauses of the sibling property C33 (reported by its own check): %s" % sorted(other))
+    nann = sum(1 for tr in alltraces for e in tr["events"] if e["ev"] == "Announce")
+    nrej = sum(1 for tr in alltraces for e in tr["events"] if e["ev"] == "Announce" and not e["accepted"])
+    ctx.notes.append("%d announcements handed to the brokers (first announcements and re-announcements with other certificates), %d refused by the broker" % (nann, nrej))
